@@ -63,6 +63,27 @@ fn ev_decode_json<T: DeserializeOwned>(log: &mut Log, ty: &str, text: &str, enc:
     log.ev(json!({"prop": "C19", "op": "decode_json", "ty": ty, "json": bytes_val(text.as_bytes()), "out": out}));
 }
 
+/// to/from little- and big-endian bytes
+fn ev_bytes(log: &mut Log, a: &IBig, u: &UBig) {
+    let r = guarded(|| {
+        let (le, be) = (u.to_le_bytes(), u.to_be_bytes());
+        json!({"le": bytes_val(&le), "be": bytes_val(&be), "back_le": enc_u(&UBig::from_le_bytes(&le)), "back_be": enc_u(&UBig::from_be_bytes(&be))})
+    });
+    log.ev(json!({"prop": "C19", "op": "bytes", "ty": "U", "val": enc_u(u), "res": outcome(r)}));
+    let r = guarded(|| {
+        let (le, be) = (a.to_le_bytes(), a.to_be_bytes());
+        json!({"le": bytes_val(&le), "be": bytes_val(&be), "back_le": enc_i(&IBig::from_le_bytes(&le)), "back_be": enc_i(&IBig::from_be_bytes(&be))})
+    });
+    log.ev(json!({"prop": "C19", "op": "bytes", "ty": "I", "val": enc_i(a), "res": outcome(r)}));
+}
+/// decoding of an arbitrary byte string (given in little-endian order; the big-endian call gets it reversed)
+fn ev_frombytes(log: &mut Log, b: &[u8]) {
+    let rev: Vec<u8> = b.iter().rev().cloned().collect();
+    let r = guarded(|| json!({"u_le": enc_u(&UBig::from_le_bytes(b)), "u_be": enc_u(&UBig::from_be_bytes(&rev)),
+        "i_le": enc_i(&IBig::from_le_bytes(b)), "i_be": enc_i(&IBig::from_be_bytes(&rev))}));
+    log.ev(json!({"prop": "C19", "op": "frombytes", "bin": bytes_val(b), "res": outcome(r)}));
+}
+
 fn enc_u_repr(x: &UBig) -> Value {
     json!({"int": enc_u(x), "repr": repr_u(x)})
 }
@@ -127,6 +148,25 @@ fn main() {
             }
             4 => ev_roundtrip(&mut log, "R", &RBig::from_parts(a.clone(), d.clone()), &enc_r),
             _ => ev_roundtrip(&mut log, "X", &Relaxed::from_parts(a.clone(), d.clone()), &enc_rx),
+        }
+        if i % 2 == 0 {
+            ev_bytes(&mut log, &a, &u);
+            // byte strings with every interesting top byte (sign bit alone, all ones, zero padding)
+            let mut b = words_to_bytes(a.as_sign_words().1);
+            let top = *rng.pick(&[0x80u8, 0xff, 0x00, 0x7f, 0x01, 0x81]);
+            match rng.below(3) {
+                0 => b.push(top),
+                1 => {
+                    if let Some(l) = b.last_mut() {
+                        *l = top
+                    }
+                }
+                _ => {
+                    b.push(top);
+                    b.push(if top >= 0x80 { 0xff } else { 0 });
+                }
+            }
+            ev_frombytes(&mut log, &b);
         }
         // malformed / non-canonical binary streams
         if i % 3 == 0 {
